@@ -16,7 +16,7 @@ for m in "${muts[@]}"; do
   if ! git -C $WT apply /verif/seeded/$m/patch.diff 2>/dev/null; then echo "$m | - | patch does not apply on the current tree"; continue; fi
   rsync -rc --delete --exclude target --exclude .git --exclude SEEDED $WT/ $SCR/build/loom-src/
   ( cd $SCR/harness && CARGO_TARGET_DIR=$SCR/target cargo build --release --offline 2>$SCR/build.log ) || { echo "$m | - | build failed"; continue; }
-  own=${m%%_*}
+  own=${m:0:3}
   for p in $own ${RELATED[$m]}; do
     out=$(cd $SCR && LV_ROOT=$SCR timeout 900 $SCR/target/release/lv run $p quick 2>&1); rc=$?
     v=$(echo "$out" | grep -A1 "^VIOLATION" | sed -n 2p | cut -c1-260)
